@@ -17,6 +17,9 @@ fn replay_case(prop: &str, case: &Value) -> Vec<Violation> {
     match case["engine"].as_str().unwrap_or("") {
         "tok" => props::tok::replay(prop, case),
         "pair" => props::pair::replay(case),
+        "marker" => props::marker::replay(case),
+        "cli" => props::cli::replay(prop, case),
+        "time" | "time-mono" => props::time::replay(case),
         "doc" => props::doc::replay(prop, case),
         "tag" | "tag-opaque" => props::tag::replay(case),
         other => {
@@ -72,6 +75,9 @@ fn main() {
         "C01" | "C02" | "C03" | "C04" | "C14" => {
             props::doc::run(&r, props::doc::P::parse(prop).unwrap())
         }
+        "C05" => props::time::run(&r),
+        "C06" => props::marker::run(&r),
+        "C20" => props::cli::run(&r),
         "C09" => props::tag::run(&r),
         "C10" => props::pair::run(&r),
         _ => {
